@@ -314,9 +314,9 @@ def trace_inputs(ob, entry):
     for st in ob.get("trace", []) or []:
         if st.get("stepType") != "assignment":
             continue
-        fn = (st.get("sourceLocation") or {}).get("function", "")
-        lhs = st.get("lhs", "")
-        if not fn.startswith("h_") or not lhs or lhs.startswith("__CPROVER") or "return_value" in lhs and "nondet" not in lhs:
+        loc = st.get("sourceLocation") or {}
+        fn = loc.get("function", ""); lhs = st.get("lhs", "")
+        if not (fn.startswith("h_") or "/targets/" in loc.get("file", "")) or not lhs or lhs.startswith("__CPROVER") or "return_value" in lhs and "nondet" not in lhs:
             continue
         v = st.get("value", {})
         if "binary" in v or "data" in v:
@@ -349,11 +349,20 @@ def make_replay(cfg, job, ob, prop, tier):
     os.makedirs(rdir, exist_ok=True)
     hid = hashlib.md5((job["id"] + (ob["name"] or "") + (ob["desc"] or "")).encode()).hexdigest()[:8]
     rfile = os.path.join(rdir, "%s-%s-%s.json" % (cfg["name"], job["entry"], hid))
-    tr = run_job(cfg, job, tier, want_trace=True, only_property=ob["name"])
-    inputs = {}; cbmc_out = tr.get("note", "")
-    for o in tr.get("obligations", []):
-        if o["name"] == ob["name"] and o.get("trace"):
-            inputs = trace_inputs(o, job["entry"])
+    inputs = {}; cbmc_out = ""; tr = {}
+    # counterexample extraction: first under the target's "small counterexample" define (materialisable inputs), then unconstrained
+    attempts = []
+    if job.get("mode", "direct") == "direct":
+        j2 = dict(job); j2["defs"] = ",".join([d for d in job.get("defs", "").split(",") if d] + ["VERIF_SMALL_CE"]); attempts.append(j2)
+    attempts.append(job)
+    for jx in attempts:
+        tr = run_job(cfg, jx, tier, want_trace=True, only_property=ob["name"])
+        cbmc_out = tr.get("note", "")
+        for o in tr.get("obligations", []):
+            if o["name"] == ob["name"] and o.get("trace") and o["status"] == "FAILURE":
+                inputs = trace_inputs(o, job["entry"])
+        if inputs:
+            break
     doc = {"property": prop, "target": cfg["name"], "job": job["id"], "entry": job["entry"], "obligation": ob["name"], "description": ob["desc"],
            "location": ob["loc"], "inputs": inputs, "checker_cmd": tr.get("cmd", ""), "verifier_output": cbmc_out, "confirmed": False}
     json.dump(doc, open(rfile, "w"), indent=1)
@@ -423,6 +432,7 @@ def main(argv):
 
 def run_and_report(prop, tier, targets, jobs, t0, extra_cov=None, extra_assumptions=None, level="proof"):
     kf = load_known_findings()
+    shutil.rmtree(os.path.join(VERIF, "replay", "out", prop), ignore_errors=True)
     need = sorted({j["target"] for j in jobs})
     undecided = []; ext_s = {}
     with cf.ThreadPoolExecutor(max_workers=NCPU) as ex:
